@@ -1,10 +1,95 @@
 import Driver.Index
 import Driver.IndexRows
-/- C16 handlers (indexing never fails) -/
+import OrdModel.Index.Valid
+/- C16 handlers (indexing never fails): the generator's notion of "valid chain" is tied to
+`OrdModel/Index/Valid.lean`'s, so that `index.oracle.nofail = false` on a chain that `validChain`
+accepts is a C16 violation and not a generator artefact.
+
+  ix.oracle.validblock <case> <height> <ntx> {txid nin {prev-txid vout spent-value} nout {value}}
+      → `Valid.checkBlock` on the block alone, with the UTXO set reconstructed from the spent
+        values on the line (outputs created inside the block excluded); envelopes / runestones /
+        node answers are not on the line (those rules are evaluated by `validchain`)
+  ix.oracle.validchain <case> <height> ## block h time hash min ## tx … ## tx … ## block …
+      → `Valid.validChain` on the whole chain so far (full `tx` lines as in the block protocol) -/
 namespace Driver.IxMiscC16
 open Ord Ord.Index Driver.Index
 
+def splitSections (ts : List String) : List (List String) :=
+  let rec go : List String → List String → List (List String) → List (List String)
+    | [], cur, acc => (cur.reverse :: acc).reverse
+    | t :: rest, cur, acc => if t == "##" then go rest [] (cur.reverse :: acc) else go rest (t :: cur) acc
+  go ts [] []
+
+/-- `prev-txid vout value` -/
+def parseVIn : List String → Option ((TxIn × Nat) × List String)
+  | t :: v :: val :: rest => do
+    some ((⟨⟨← parseHexNat t, ← v.toNat?⟩, false, some 0, []⟩, ← val.toNat?), rest)
+  | _ => none
+
+def parseVOut : List String → Option (TxOut × List String)
+  | v :: rest => do some (⟨← v.toNat?, false, []⟩, rest)
+  | _ => none
+
+/-- `txid nin {prev-txid vout value} nout {value}` -/
+def parseVTx : List String → Option ((Tx × List (OutPoint × Nat)) × List String)
+  | txid :: nin :: rest => do
+    let (ins, rest) ← takeN 0 parseVIn (← nin.toNat?) rest []
+    match rest with
+    | nout :: rest => do
+      let (outs, rest) ← takeN 0 parseVOut (← nout.toNat?) rest []
+      some ((⟨← parseHexNat txid, ins.map (·.1), outs, [], none, 0⟩, ins.map (fun (i, v) => (i.prev, v))), rest)
+    | _ => none
+  | _ => none
+
+/-- the UTXO set the block needs: every spent `(outpoint, value)` on the line once, except
+outputs created inside the block and null previous outputs -/
+def neededUtxos (txids : List Txid) (spent : List (OutPoint × Nat)) : Valid.Utxos :=
+  spent.foldl (fun acc (op, v) =>
+    if op.isNull || txids.contains op.txid || (Valid.lookup acc op).isSome then acc else acc ++ [(op, v)]) []
+
+def validBlockLine (height : Nat) (ts : List String) : Option Bool :=
+  match ts with
+  | ntx :: rest => do
+    let (txs, rest) ← takeN 0 parseVTx (← ntx.toNat?) rest []
+    if !rest.isEmpty then none else
+    let blk : Block := ⟨height, 0, 0, 0, txs.map (·.1)⟩
+    let st : Valid.VState :=
+      { height := height, utxos := neededUtxos (txs.map (·.1.txid)) (txs.flatMap (·.2)) }
+    some (Valid.checkBlock st blk).isSome
+  | _ => none
+
+/-- sections `block h t hash min`, `tx …` → blocks in order -/
+def parseChain (secs : List (List String)) : Option (List Block) :=
+  let rec go : List (List String) → Option Block → List Tx → List Block → Option (List Block)
+    | [], cur, txs, acc =>
+      match cur with
+      | some b => some (({ b with txs := txs.reverse } :: acc).reverse)
+      | none => some acc.reverse
+    | ("block" :: [h, t, hash, minr]) :: rest, cur, txs, acc =>
+      match h.toNat?, t.toNat?, parseHexNat hash, minr.toNat? with
+      | some h, some t, some hash, some m =>
+        let acc' := match cur with | some b => { b with txs := txs.reverse } :: acc | none => acc
+        go rest (some ⟨h, t, hash, m, []⟩) [] acc'
+      | _, _, _, _ => none
+    | ("tx" :: ts) :: rest, cur, txs, acc =>
+      match cur, parseTx ts with
+      | some b, some tx => go rest (some b) (tx :: txs) acc
+      | _, _ => none
+    | _ :: _, _, _, _ => none
+  go secs none [] []
+
 def handle (_s : S) : List String → Option String
+  | "ix.oracle.validblock" :: _case :: h :: ts =>
+    match h.toNat? with
+    | none => some "bad-op"
+    | some h =>
+      match validBlockLine h ts with
+      | some b => some (toString b)
+      | none => some "bad-op"
+  | "ix.oracle.validchain" :: _case :: _h :: "##" :: ts =>
+    match parseChain (splitSections ts) with
+    | some chain => some (toString (Valid.validChain chain))
+    | none => some "bad-op"
   | _ => none
 
 end Driver.IxMiscC16
